@@ -12,8 +12,8 @@ RULE = ('every program t(..) :- [Gv = Goal,] Builtin for Builtin in {call(G), ca
         'each optionally followed by a continuation goal or used twice in a row on the same goal term} x goal in {atoms and compound goals with 0/1/2 solutions '
         'over compiled facts, a rule, dynamic facts, a predicate with both compiled clauses and a dynamic fact, an undefined predicate} x goal written inline, arriving in a '
         'variable bound at run time, or through a chain of two variables aliased before the goal is bound [thorough: x one level of nesting of the builtins inside each other], each '
-        'queried with unbound and bound arguments (on a new engine and on an engine that was used and cleared before the program is loaded) and compared answer by answer with RefProlog; plus X = Y and '
-        'X \\= Y as goals for every pair of printable terms of depth <=1 over 2 variables. Through the Python API the SAME goal term objects are passed to call/N, once/1 and findall/3 three times in a row. Unbound variables inside a '
+        'queried with unbound and bound arguments (on a new engine and on an engine that was used and cleared before the program is loaded) and compared answer by answer with RefProlog; plus X = Y, '
+        'X \\= Y and their negations \\+ X = Y, \\+ X \\= Y as goals for every pair of printable terms of depth <=1 over 2 variables. Through the Python API the SAME goal term objects are passed to call/N, once/1 and findall/3 three times in a row. Unbound variables inside a '
         'findall bag are observed anonymously (whether they are shared is not fixed by the property). states = '
         'distinct per-program outcomes; transitions = next() calls; non-trivial = some query has an answer')
 ASSUMPTIONS = ['RefProlog implements the standard definitions (findall copies instances, once = first solution, '
@@ -161,13 +161,15 @@ def eq_terms():
     d1 += [F('f', t, u) for t in base for u in base]
     d1 += [F('g', t) for t in base]
     d1 += [L([t]) for t in base] + [L([t], v) for t in base for v in (X, Y)] + [L([t, u]) for t in base[:4] for u in base[:4]]
+    # compounds named like the builtins, used as DATA (a term is a term whatever its name)
+    d1 += [F('call', A('a'), X), F('call', F('f', X)), F('once', A('a')), F('findall', X, A('a'), Y), F('a', X)]
     return d1
 
 
 def eq_programs():
     ts = eq_terms()
     idx = 0
-    for op in ('=', '\\='):
+    for op in ('=', '\\=', 'not=', 'not\\='):
         for t1 in ts:
             for t2 in ts:
                 yield idx, op, t1, t2
@@ -175,7 +177,11 @@ def eq_programs():
 
 
 def eq_case(op, t1, t2):
-    clause = (F('e', X, Y), conj(call(F(op, t1, t2)), call(F('m', V('W')))))
+    if op.startswith('not'):
+        # the negated forms: \\+ T1 = T2 and \\+ T1 \\= T2 bind nothing
+        clause = (F('e', X, Y), conj(('\\+', call(F(op[3:], t1, t2))), call(F('m', V('W')))))
+    else:
+        clause = (F('e', X, Y), conj(call(F(op, t1, t2)), call(F('m', V('W')))))
     qa, qb = V('A'), V('B')
     queries = [F('e', qa, qb), F('e', A('a'), qb), F('e', qa, qa), F('e', F('f', qb), qb), F('e', C(1), NIL)]
     return Case([(SUPPORT, True, True), ([clause], True, False)], [], queries, repeat=1), clause
@@ -292,8 +298,11 @@ def run_shard(spec):
             acc.outcome(('api', kind, r[1]))
     else:
         _, k, n = spec
+        from .. import diff as _diff
         for idx, op, t1, t2 in eq_programs():
             if idx % n != k:
+                continue
+            if op.startswith('not') and _diff.ENGINE['mode'] == 'cleared':
                 continue
             case, clause = eq_case(op, t1, t2)
             res = case.run()
